@@ -24,6 +24,7 @@ func pow2(r *Rand, lo, hi int) int { // power of two between 2^lo and 2^hi
 func genC04(r *Rand, i int, thor bool) J2KCase {
 	k := J2KCase{Seed: r.U64()}
 	// sizes: grid 1..40, around code-block multiples, random up to 600 (thorough) / 150 (quick)
+	manyPackets := r.Intn(6) == 0
 	switch r.Intn(4) {
 	case 0:
 		k.W, k.H = r.Range(1, 40), r.Range(1, 40)
@@ -61,6 +62,17 @@ func genC04(r *Rand, i int, thor bool) J2KCase {
 	k.Layers = r.Pick(1, 1, 1, 2, 3, 4, 5, 6)
 	k.MCT = r.Bool()
 	k.Content = r.Pick(0, 0, 0, 1, 2, 3, 4, 5)
+	if manyPackets {
+		// many packets per image (small code-blocks and precincts, several layers, noise) so
+		// that rare packet-header byte patterns (e.g. a header ending in 0xFF) are reached
+		k.W, k.H = r.Range(48, 128), r.Range(48, 128)
+		k.CBW, k.CBH = pow2(r, 2, 3), pow2(r, 2, 3)
+		k.PW, k.PH = 32, 32
+		k.Levels = r.Range(2, 5)
+		k.Layers = r.Range(2, 6)
+		k.Comps = r.Range(1, 3)
+		k.Content = 0
+	}
 	return k
 }
 
@@ -211,6 +223,15 @@ func runC19(c *Ctx) {
 func replayCases(c *Ctx, suite string, gen []J2KCase) ([]J2KCase, int) {
 	raws := c.ReplayInputs(suite)
 	if raws == nil {
+		// corpus of minimised earlier failures runs first
+		var pre []J2KCase
+		for _, r := range c.CorpusInputs(suite) {
+			var k J2KCase
+			if json.Unmarshal(r, &k) == nil && k.W > 0 {
+				pre = append(pre, k)
+			}
+		}
+		gen = append(pre, gen...)
 		return gen, len(gen)
 	}
 	out := []J2KCase{}
